@@ -99,6 +99,37 @@ def check_c18(tier, seed, res, work):
         cases.append((cid, text))
         meta[cid] = (hdr, qtext, ml, crlf, text)
         lst.append('%s %s %s' % (cid, fp, hx(qtext.encode('utf-8'))))
+    # very long physical lines (a long message literal, a long literal list, a whole generated query on one line):
+    # every buffer size a line reader might have falls inside some token
+    eolx = ['\n', '\r\n']
+    longs = []
+    for L in (4000, 4090, 4096, 4100, 5000, 8190, 9000, 20000, 60000, 65530, 70000, 200000):
+        msg = '"' + ''.join('word%d ' % k for k in range(L // 6))[:L] + '"'
+        longs.append(['FROM', 'method_declaration', 'AS', 'md', 'WHERE', 'md', '.', 'getName', '(', ')', '==', '"a"', 'SELECT', 'md', ',', msg])
+        longs.append(['FROM', 'method_declaration', 'AS', 'md', 'WHERE', 'md', '.', 'getName', '(', ')', '!=', msg, 'SELECT', 'md'])
+    lst_ = ['[']
+    for k in range(900):
+        lst_ += ([','] if k else []) + ['"name%d"' % k]
+    longs.append(['FROM', 'method_declaration', 'AS', 'md', 'WHERE', 'md', '.', 'getName', '(', ')', 'in'] + lst_ + [']', 'SELECT', 'md', '.', 'getName', '(', ')'])
+    longs.append(['FROM', 'method_declaration', 'AS', 'md', 'WHERE'] + ['md', '.', 'getName', '(', ')', '!=', '"n"', '&&'] * 700 + ['md', '.', 'getName', '(', ')', '!=', '"z"', 'SELECT', 'md'])
+    for j, toks in enumerate(longs):
+        for lay in range(3):
+            eol = eolx[(j + lay) % 2]
+            if lay == 0:
+                qtext = ' '.join(toks)                                   # one line
+            elif lay == 1:
+                si = toks.index('WHERE')
+                qtext = ' '.join(toks[:si]) + eol + '  ' + ' '.join(toks[si:]) + eol      # the long part on a line of its own
+            else:
+                qtext = ''.join(t + (eol if (i_ % 400 == 399) else ' ') for i_, t in enumerate(toks))   # wrapped now and then
+            text = ('/**' + eol + ' * @id long%d' % j + eol + ' * @description a long line' + eol + ' */' + eol + qtext).encode()
+            cid = 'L%d_%d' % (j, lay)
+            fp = '%s/%s.cql' % (work, cid)
+            open(fp, 'wb').write(text)
+            cases.append((cid, text))
+            meta[cid] = ({'@id': 'long%d' % j, '@description': 'a long line'}, qtext, False, eol == '\r\n', text)
+            lst.append('%s %s %s' % (cid, fp, hx(qtext.encode('utf-8'))))
+            stats['long_line_files'] += 1
     # shipped rule files too
     shipped = sorted(p for p in __import__('glob').glob(REPO + '/pathfinder-rules/**/*.cql', recursive=True))
     for j, p in enumerate(shipped):
@@ -118,7 +149,8 @@ def check_c18(tier, seed, res, work):
     for l in open(work + '/rules.out'):
         w = l.rstrip('\n').split(' ')
         impl[w[1]] = dict(kv.split('=', 1) for kv in w[2:])
-    model = model_rules(cases, work)
+    # the extracted model is quadratic in the length of a line: files above 6000 bytes go to the oracles only
+    model = model_rules([(cid, text) for cid, text in cases if len(text) <= 6000], work)
     nd = 0
     known = Counter()
     for cid, text in cases:
@@ -127,11 +159,13 @@ def check_c18(tier, seed, res, work):
         stats['files'] += 1
         stats['crlf'] += int(crlf)
         stats['multiline_string'] += int(bool(ml))
-        if im is None or mo is None:
+        if im is None or (mo is None and len(text) <= 6000):
             res.tie_broken.append('no output for rule %s' % cid)
             continue
+        if mo is None:
+            stats['long_files_not_compared_with_the_model'] += 1
         # correspondence: the model's extractors = the real ones, byte for byte
-        for k in ('id', 'desc', 'sev', 'impact', 'provider', 'ciq', 'fileq'):
+        for k in ('id', 'desc', 'sev', 'impact', 'provider', 'ciq', 'fileq') if mo is not None else ():
             if im[k] != mo[k]:
                 nd += 1
                 if nd == 1:
